@@ -388,3 +388,159 @@ def stuck_sibling_probe(ctx, res, props, runs):
             res.fail("wrong-exception:" + str((box.get("first") or ("?", "?"))[1]), case, dict(first=box.get("first")))
         if box.get("second") != ("returned", [0, 3, 6, 9, 12, 15]):
             res.fail("not-reusable-after-failure", case, dict(second=box.get("second")))
+
+
+def stuck_sibling_process_probe(ctx, res, props, runs):
+    """C04 on the real PROCESS backends with siblings that are still running when the call fails: "the call raises ... and
+    when the caller has to wait longer than timeout ... TimeoutError is raised.  The call always terminates, and afterwards the
+    same Parallel object - inside or outside a with block - can be called again".  Task 0 raises at once (or `timeout=1`
+    expires) while the other dispatched tasks sleep far longer than the bound: the error must reach the caller within
+    BOUND seconds - not when the slowest sibling ends - and the next call on the same object must return its own results."""
+    if "C04" not in props:
+        return
+    joblib = core.use_repo()
+    from . import native_tasks as T
+    import os, time
+    rng = ctx.rng("native-stuck-process")
+    SLEEP, BOUND = 45.0, 20.0
+    combos = [(b, m, k) for b in ("loky", "multiprocessing") for m in (True, False) for k in ("task-error", "timeout")]
+    rng.shuffle(combos)
+    # the managed (with-block) cases first: there the backend has to stay ready for the next call
+    combos.sort(key=lambda c: not c[1])
+    saved_err = os.dup(2)
+    devnull = os.open(os.devnull, os.O_WRONLY)
+    os.dup2(devnull, 2)
+    try:
+        for r in range(min(runs, len(combos))):
+            backend, managed, kind = combos[r]
+            nj = 2
+            case = dict(kind="native-stuck-sibling-process", backend=backend, managed=managed, failure=kind, n_jobs=nj)
+            box = {}
+
+            def body():
+                p = joblib.Parallel(n_jobs=nj, backend=backend, batch_size=1, timeout=1 if kind == "timeout" else 30)
+                if managed:
+                    p.__enter__()
+                try:
+                    t0 = time.monotonic()
+                    try:
+                        if kind == "timeout":
+                            box["first"] = ("returned", p(joblib.delayed(T.sleeper)(i, SLEEP) for i in range(nj)))
+                        else:
+                            box["first"] = ("returned", p(joblib.delayed(T.slow_or_fail)(i, SLEEP) for i in range(nj)))
+                    except BaseException as e:  # noqa: BLE001
+                        box["first"] = ("raised", type(e).__name__)
+                    box["first_s"] = time.monotonic() - t0
+                    t1 = time.monotonic()
+                    try:
+                        p.timeout = 30
+                        box["second"] = ("returned", p(joblib.delayed(T.ok)(i) for i in range(4)))
+                    except BaseException as e:  # noqa: BLE001
+                        box["second"] = ("raised", type(e).__name__)
+                    box["second_s"] = time.monotonic() - t1
+                finally:
+                    if managed:
+                        p.__exit__(None, None, None)
+
+            t = threading.Thread(target=body, daemon=True)
+            t.start()
+            t.join(SLEEP + 40)
+            res.evaluations += 1
+            res.count("native-stuck-sibling-process-runs")
+            res.nontrivial.add(("native-stuck-process", backend, managed, kind))
+            if t.is_alive():
+                res.fail("call-never-returns", case, dict(box=box))
+                continue
+            want = "TimeoutError" if kind == "timeout" else "ValueError"
+            first = box.get("first")
+            if not first or first[0] != "raised":
+                res.fail("failure-not-surfaced", case, dict(first=first))
+            elif first[1] != want:
+                res.fail("wrong-exception:" + first[1], case, dict(first=first))
+            elif box.get("first_s", 0) > BOUND:
+                res.fail("error-waits-for-running-siblings", case,
+                         dict(first=first, seconds=round(box["first_s"], 1), siblings_sleep=SLEEP, bound=BOUND))
+            if box.get("second") != ("returned", [0, 3, 6, 9]):
+                res.fail("not-reusable-after-failure", case, dict(second=box.get("second")))
+            elif box.get("second_s", 0) > BOUND:
+                res.fail("next-call-waits-for-siblings-of-the-failed-call", case,
+                         dict(seconds=round(box["second_s"], 1), siblings_sleep=SLEEP, bound=BOUND))
+    finally:
+        os.dup2(saved_err, 2)
+        os.close(saved_err)
+        os.close(devnull)
+
+
+def shutdown_fault_probe(ctx, res, props, runs):
+    """C04 "the call always terminates, and afterwards the same Parallel object ... can be called again and returns exactly
+    the results of the new tasks": the clean-up of a call is itself interrupted - the backend's `terminate()` / `stop_call()`
+    raises once (an OSError while joining a pool, a KeyboardInterrupt delivered during the join).  What the interrupted call
+    raises is the fault's business; the NEXT call on the same object must still be accepted and return its own results."""
+    if "C04" not in props:
+        return
+    joblib = core.use_repo()
+    from joblib._parallel_backends import ThreadingBackend
+    from joblib.parallel import register_parallel_backend, BACKENDS
+    rng = ctx.rng("native-shutdown-fault")
+    combos = [(where, exc, fails, ra) for where in ("terminate", "stop_call") for exc in (OSError, KeyboardInterrupt)
+              for fails in (True, False) for ra in ("list", "generator")]
+    rng.shuffle(combos)
+    combos.sort(key=lambda c: (c[0] != "terminate", not c[2]))
+    for where, exc, fails, ra in combos[:runs]:
+        armed = {"on": False, "fired": 0}
+
+        class Faulty(ThreadingBackend):
+            def terminate(self):
+                super().terminate()
+                if where == "terminate" and armed["on"]:
+                    armed["on"] = False
+                    armed["fired"] += 1
+                    raise exc("injected fault in backend.terminate()")
+
+            def stop_call(self):
+                super().stop_call()
+                if where == "stop_call" and armed["on"]:
+                    armed["on"] = False
+                    armed["fired"] += 1
+                    raise exc("injected fault in backend.stop_call()")
+
+        name = "verif-faulty-shutdown"
+        register_parallel_backend(name, Faulty)
+        case = dict(kind="native-shutdown-fault", where=where, exception=exc.__name__, first_call_fails=fails, return_as=ra)
+        box = {}
+
+        def task(i):
+            if fails and i == 1:
+                raise ValueError(1)
+            return i * 2
+
+        def body():
+            try:
+                p = joblib.Parallel(n_jobs=2, backend=name, return_as=ra)
+                armed["on"] = True
+                try:
+                    box["first"] = ("returned", list(p(joblib.delayed(task)(i) for i in range(4))))
+                except BaseException as e:  # noqa: BLE001
+                    box["first"] = ("raised", type(e).__name__)
+                armed["on"] = False
+                try:
+                    box["second"] = ("returned", list(p(joblib.delayed(lambda k: k * 3)(i) for i in range(5))))
+                except BaseException as e:  # noqa: BLE001
+                    box["second"] = ("raised", type(e).__name__, str(e)[:80])
+            finally:
+                BACKENDS.pop(name, None)
+
+        t = threading.Thread(target=body, daemon=True)
+        t.start()
+        t.join(40)
+        res.evaluations += 1
+        res.count("native-shutdown-fault-runs")
+        if armed["fired"]:
+            res.nontrivial.add(("native-shutdown-fault", where, exc.__name__, fails, ra))
+        if t.is_alive():
+            res.fail("call-never-returns", case, dict(box=box))
+            continue
+        if not armed["fired"]:
+            continue
+        if box.get("second") != ("returned", [0, 3, 6, 9, 12]):
+            res.fail("not-reusable-after-interrupted-cleanup", case, dict(first=box.get("first"), second=box.get("second")))
